@@ -663,7 +663,34 @@ def _heap_rule(ctx, p, f, n, base, idx, itv, kind):
             return itv[0] >= 0 and itv[1] < size, 'hashmap', 'HashMap<%d> storage (constructed with Size entries, never resized)' % size
         # descending scan from size()-k guarded by i >= 0
         iv_ = strip_casts(idx).get('ref', {})
-        if iv_.get('k') == 'Local':
+        off_ = 0
+        ix_ = strip_casts(idx)
+        if ix_['k'] == 'BinaryOperator' and ix_.get('op') in ('+', '-') and const_of(strip_casts(kids(ix_)[1])) is not None and \
+                strip_casts(kids(ix_)[0]).get('ref', {}).get('k') == 'Local':
+            iv_ = strip_casts(kids(ix_)[0])['ref']
+            off_ = const_of(strip_casts(kids(ix_)[1])) * (1 if ix_['op'] == '+' else -1)
+        if iv_.get('k') == 'Local' and off_ != 0:
+            # v[i + off] in a descending scan `for (i = size() - k; i >= L; --i)` (or i > L - 1): in range when L + off >= 0 and off < k
+            for a in f.ancestors(n):
+                if a['k'] == 'ForStmt':
+                    ch = a.get('ch') or []
+                    init, cond, inc = ch[0], ch[2], ch[3]
+                    decl = [x for x in walk(init) if x['k'] == 'VarDecl' and x.get('id') == iv_['id']] if init else []
+                    if not decl or cond is None or inc is None:
+                        continue
+                    start = canon(f, kids(decl[0])[0], inline=False).replace(' ', '')
+                    step = canon(f, inc, inline=False).replace(' ', '')
+                    m = re.match(r'^\((int\()?%s\.size\(\)\)?-(\d+)\)$' % re.escape(oname), start)
+                    c0 = strip_casts(cond)
+                    low = None
+                    if c0['k'] == 'BinaryOperator' and c0.get('op') in ('>', '>=') and strip_casts(kids(c0)[0]).get('ref', {}).get('id') == iv_['id']:
+                        cv_ = const_of(strip_casts(kids(c0)[1]))
+                        if cv_ is not None:
+                            low = cv_ + (1 if c0['op'] == '>' else 0)
+                    if m and low is not None and step in ('--(%s)' % iv_['n'], '(%s)--' % iv_['n']) and not local_writes(f, iv_['id'], ch[4]) \
+                            and low + off_ >= 0 and off_ < int(m.group(2)):
+                        return True, 'vector-window', 'index %s%+d with %s running from size()-%s down to %d' % (iv_['n'], off_, iv_['n'], m.group(2), low)
+        if iv_.get('k') == 'Local' and off_ == 0:
             for a in f.ancestors(n):
                 if a['k'] == 'ForStmt':
                     ch = a.get('ch') or []
